@@ -86,7 +86,7 @@ theorem C10_scan_calls (cb : Cbs) (hcb : cb.wellBehaved) (segs : List Seg) (dqt 
       | nil => rw [hrest] at hl; simp at hl
       | cons b t2 =>
         simp only [show ((0xFF : UInt8) != 0xFF) = false by decide, Bool.false_eq_true, if_false,
-          show ((0xD8 : UInt8) == 0xD8) = true by decide, if_true]
+          show ((0xD8 : UInt8) == 0xFF) = false by decide, show ((0xD8 : UInt8) == 0xD8) = true by decide, if_true]
         have := discard_prefix [0xFF, 0xD8] (a :: b :: t2) 0 ((0 + 1) % 256) 2 rfl (by decide) (by decide)
         simp only [List.cons_append, List.nil_append] at this
         have e2 : ((2 : Nat) : Int) = 2 := rfl
@@ -98,7 +98,7 @@ theorem C10_scan_calls (cb : Cbs) (hcb : cb.wellBehaved) (segs : List Seg) (dqt 
     dsimp only
     rw [if_neg (by omega)]
     simp only [show ((0xFF : UInt8) != 0xFF) = false by decide, Bool.false_eq_true, if_false,
-      show ((0xDB : UInt8) == 0xD8) = false by decide, show ((0xDB : UInt8) == 0xD9) = false by decide,
+      show ((0xDB : UInt8) == 0xFF) = false by decide, show ((0xDB : UInt8) == 0xD8) = false by decide, show ((0xDB : UInt8) == 0xD9) = false by decide,
       show ((0xDB : UInt8) == 0xDB) = true by decide, if_true]
     rw [if_neg (by decide : ¬ (1 : Nat) = 0), if_neg (by decide), if_neg (by decide)]
   have hsmall : run cb ((segs.length + 1) + 1) { rest := 0xFF :: 0xD8 :: (encodeAll segs ++ dqt), discarded := 0, pos := 0 } [] =
@@ -135,5 +135,22 @@ example : scan exampleCbs (0xFF :: 0xD8 :: (encodeAll exampleSegs ++ exampleDqt)
     some (.ok, [.xmp [60, 120, 58, 120, 109, 112, 109, 101, 116, 97, 47, 62],
                 .exif { order := .big, firstIfd := 8, tiffOffset := 97, exifLength := 12 } [0x4d, 0x4d, 0, 0x2a, 0, 0, 0, 8, 1, 2, 3, 4]]) := by
   decide +kernel
+
+/-- **Fill bytes.**  Any marker may be preceded by any number of 0xFF fill bytes (ITU-T T.81 B.1.1.2): inside an image or
+outside, a 0xFF that is followed by another 0xFF is skipped — one byte consumed, the absolute offset advanced by one,
+nothing reported — so the scan reaches the marker behind the padding in the state it would have there (the pinned tree took
+`FF FF` for a marker of type 0xFF and skipped a bogus length; repaired). -/
+theorem C10_fill_byte_skipped (cb : Cbs) (a b : UInt8) (t : Bytes) (d pos : Nat) (hlen : 60 ≤ t.length) (hd : d + 1 < 2 ^ 32) :
+    step cb { rest := 0xFF :: 0xFF :: a :: b :: t, discarded := d, pos := pos } =
+      .next { rest := 0xFF :: a :: b :: t, discarded := d + 1, pos := pos } [] := by
+  unfold step
+  dsimp only
+  rw [if_neg (by simp only [List.length_cons]; omega)]
+  simp only [show ((0xFF : UInt8) != 0xFF) = false by decide, Bool.false_eq_true, if_false,
+    show ((0xFF : UInt8) == 0xFF) = true by decide, if_true]
+  have := discard_prefix [0xFF] (0xFF :: a :: b :: t) d pos 1 rfl (by decide) hd
+  simp only [List.cons_append, List.nil_append] at this
+  have e1 : ((1 : Nat) : Int) = 1 := rfl
+  rw [← e1, this]; rfl
 
 end Imeta.Jpeg
